@@ -7,7 +7,7 @@ cp -r /tmp/out$R-$P /var/tmp/incoming/out$R-$P || exit 2
 git -C /repo worktree remove --force /tmp/wt$R-$P 2>/dev/null
 rm -rf /tmp/out$R-$P
 RACE=""
-[ "$P" = "C10" ] && RACE="-race"; [ "$P" = "C11" ] && RACE="-race"
+[ "$P" = "C11" ] && RACE="-race"; [ -n "$NORACE" ] && RACE=""; [ "$P" = "C10" ] && [ -z "$NORACE" ] && RACE="-race"
 for d in /var/tmp/incoming/out$R-$P/m*; do
   i=$(basename $d | tr -d m)
   m="m$((i+OFF))"
